@@ -39,7 +39,14 @@ fuzz_target!(|data: &[u8]| {
     let idx = if data[0] % 4 != 0 { 0 } else { (data[0] as usize / 4) % e.table.len() };
     let mut ctx = fw::Ctx::bare("C14");
     if let Err(f) = c14::check_text(&mut ctx, e, text, idx, "libfuzzer") {
+        // open known findings are excluded (the campaign would otherwise end at the first rediscovery)
+        static KNOWN: std::sync::OnceLock<Vec<String>> = std::sync::OnceLock::new();
+        let known = KNOWN.get_or_init(|| fw::load_known().into_iter().filter(|k| k.property == "C14" && k.status == "open").map(|k| k.signature).collect());
+        if known.contains(&f.sig) {
+            return;
+        }
         eprintln!("PV-VIOLATION {} {}", f.sig, f.msg);
+        eprintln!("PV-REPLAY-JSON {}", serde_json::json!({"property": "C14", "signature": f.sig, "message": f.msg, "case": f.case}));
         std::process::abort();
     }
 });
